@@ -359,9 +359,26 @@ def execute(h):
             curs.append(Money.new_unit(c['sym'], c['sym'], c['minor']))
     n_cur = len(curs)
     convs, models = [], []
+    # does the default clock of a converter really read the simulated system
+    # date?  (the seam is the name `date` in quantity.money; if a
+    # refactoring moved it, converters without callable would read the real
+    # clock - then every converter gets a callable and the fault kind
+    # "system date" is reported as unavailable)
+    shim_ok = False
+    try:
+        saved = sysclock.today
+        sysclock.set(dt.date(1234, 5, 6))
+        pc = MoneyConverter(curs[0])
+        pc.update(dt.date(1234, 5, 6), [(curs[1], 2, 1)])
+        shim_ok = pc.get_rate(curs[0], curs[1]) is not None
+        sysclock.set(saved)
+        sysclock.reads = 0
+        sysclock.trace = []
+    except Exception:       # noqa
+        shim_ok = False
     for c in cfg['convs']:
         base = curs[c['base'] % n_cur]
-        if c['clock'] == 'callable':
+        if c['clock'] == 'callable' or not shim_ok:
             own = world.SimClock(dt.date.fromisoformat(
                 c.get('clock0', cfg['clock0'])))
             clocks.append(own)
@@ -487,11 +504,14 @@ def execute(h):
             return ('one', ui) if q == 1 else ('rate', ui, ti, _num(q))
         return ('rate', ui, ti, _num(q))
 
-    def observe(fn):
+    def observe(fn, any_exc=False):
         try:
             return fn()
         except Exception as e:   # noqa
-            return ('exc', type(e).__name__)
+            # calling a converter that has no rate: the statement names no
+            # exception type
+            return ('exc', 'UnitConversionError' if any_exc
+                    else type(e).__name__)
 
     def sweep(step):
         vec = []
@@ -528,7 +548,7 @@ def execute(h):
         else:
             money = Money(Fraction(op[5]), curs[a])
             o = observe(lambda: ('amount', _num(
-                conv(money, curs[b], d))))
+                conv(money, curs[b], d))), any_exc=a != b)
         if clock.armed:
             bump(faults, 'clock_tick_during_lookup' if not clock.script
                  else 'clock_tick_armed_but_not_reached')
@@ -643,6 +663,8 @@ def execute(h):
             log.append([i, op[0], out, sweep(i)])
     except Stop:
         pass
+    if not shim_ok:
+        probes['system_date_seam_unavailable'] = 1
     return {'digest': core.digest(log), 'violations': violations,
             'known': known, 'faults': faults, 'probes': probes,
             'ops': len(log), 'sim_days': sim_days[0],
